@@ -956,6 +956,11 @@ func (st *State) verifrtCall(fn *ssa.Function, args []Value) (Value, bool) {
 			st.end("ABORT", "missing harness parameter %q", str(1))
 		}
 		return c.Const(uint64(v), 64), true
+	case "ParamOr":
+		if v, ok := st.w.Params[str(1)]; ok {
+			return c.Const(uint64(v), 64), true
+		}
+		return args[2], true
 	case "AllowPanic":
 		st.allowPanic = true
 		return nil, true
